@@ -9,6 +9,7 @@ import (
 	"github.com/glyphlang/glyph/internal/zzverif"
 	"github.com/glyphlang/glyph/pkg/ast"
 	"github.com/glyphlang/glyph/pkg/compiler"
+	"github.com/glyphlang/glyph/pkg/interpreter"
 	"github.com/glyphlang/glyph/pkg/parser"
 )
 
@@ -123,6 +124,16 @@ var zzStmtPrograms = []struct{ name, body string }{
     s = s * 3 + val
   }
   > s`},
+	{"array-concat-keeps-operands", `
+  $ base = [a, b] + [c]
+  $ l = base + [10]
+  $ r = base + [20]
+  > [l[3], r[3], length(base), base[2]]`},
+	{"object-literals-are-values", `
+  $ o = {x: a, y: b}
+  $ p = o
+  $ p.x = c
+  > [o.x, p.x, o.y]`},
 	{"reassign-in-else", `
   $ v = a
   if b > c {
@@ -151,12 +162,72 @@ func VerifC02_Statements() {
 	r.Body = append([]ast.Statement{small("a"), small("b"), small("c")}, r.Body...)
 	iv := runInterpreted(r)
 	for _, lvl := range []compiler.OptimizationLevel{compiler.OptNone, compiler.OptBasic} {
+		if _, cerr := compiler.NewCompilerWithOptLevel(lvl).CompileRoute(r); cerr != nil {
+			// an ordinary compile error makes the server fall back to the interpreter (no
+			// divergence); a semantic error for a valid program stops the server
+			if compiler.IsSemanticError(cerr) {
+				zzverif.Fail("statements " + p.name + " compiler reports a semantic error for a valid program")
+			}
+			continue
+		}
 		cv, ok := runCompiled(r, lvl)
 		if !ok {
-			zzverif.Fail("statements " + p.name + " compiler rejected the program")
 			continue
 		}
 		compare("statements "+p.name, iv, cv)
 	}
 	zzverif.Reach("statements")
+}
+
+// Calls: a compiled route can call the VM's builtins; a call to anything else
+// (a user-defined function, a builtin only the interpreter has) compiles and
+// then fails at run time, where the interpreter runs it.
+var zzCallPrograms = []struct{ name, decl, body string }{
+	{"vm-builtin upper", "", `> upper("a")`},
+	{"vm-builtin length", "", `> length([a, b])`},
+	{"user-function", "! dbl(n: int): int {\n  > n * 2\n}\n\n", `> dbl(a)`},
+	{"builtin abs", "", `> abs(a)`},
+	{"builtin append", "", `> append([a], b)`},
+	{"builtin toString", "", `> toString(a)`},
+	{"builtin min", "", `> min(a, b)`},
+	{"builtin parseInt", "", `> parseInt("4")`},
+}
+
+func VerifC02_Calls() {
+	k := zzverif.Choice("program", len(zzCallPrograms))
+	p := zzCallPrograms[k]
+	toks, err := parser.NewLexer(p.decl + "@ GET /t {\n  " + p.body + "\n}\n").Tokenize()
+	if err != nil {
+		panic("harness program does not lex: " + p.name)
+	}
+	m, err := parser.NewParser(toks).Parse()
+	if err != nil {
+		panic("harness program does not parse: " + p.name + ": " + err.Error())
+	}
+	var r *ast.Route
+	for _, it := range m.Items {
+		if x, ok := it.(*ast.Route); ok {
+			r = x
+		}
+	}
+	small := func(n string) ast.Statement {
+		return ast.AssignStatement{Target: n, Value: ast.LiteralExpr{Value: ast.IntLiteral{Value: int64(zzverif.IntRange(n, -1, 3))}}}
+	}
+	r.Body = append([]ast.Statement{small("a"), small("b")}, r.Body...)
+	in := interpreter.NewInterpreter()
+	if err := in.LoadModule(*m); err != nil {
+		panic("harness program does not load: " + p.name)
+	}
+	resp, ierr := in.ExecuteRoute(r, &interpreter.Request{Path: "/t", Method: "GET"})
+	iv := outcome{isErr: ierr != nil}
+	if ierr == nil {
+		iv = outcome{status: resp.StatusCode, val: resp.Body}
+	}
+	cv, ok := runCompiled(r, compiler.OptBasic)
+	if !ok {
+		zzverif.Reach("calls") // the compiler refused: the server falls back to the interpreter
+		return
+	}
+	compare("call "+p.name, iv, cv)
+	zzverif.Reach("calls")
 }
